@@ -915,18 +915,15 @@ impl Cfg {
         let e1 = expect(model, at, batch, true);
         let e2 = expect(model, at, batch, false);
         let nontrivial = e2 != Exp::DepositedAllAllowed;
-        // frame condition holds in every case
-        if !obs.frame.is_empty() {
-            local.violation(
-                format!("frame:{ml}"),
-                format!("something other than B's vaults of the deposited resources changed: {}", obs.frame.join("; ")),
-                case(e1.label()),
-            );
-            return Verdict { nontrivial };
-        }
         if e1 != e2 {
             // "already holds" with an existing but empty vault: either reading is accepted
-            if matches_exp(e1, &obs.kind) {
+            if !obs.frame.is_empty() && (matches_exp(e1, &obs.kind) || matches_exp(e2, &obs.kind)) {
+                local.violation(
+                    format!("frame:{ml}"),
+                    format!("something other than B's vaults of the deposited resources changed: {}", obs.frame.join("; ")),
+                    case(&format!("{} or {}", e1.label(), e2.label())),
+                );
+            } else if matches_exp(e1, &obs.kind) {
                 local.info("AllowExisting with an empty vault: engine treats the resource as held");
                 local.class(&format!("{}[empty-vault-ambiguous]", e1.label()));
             } else if matches_exp(e2, &obs.kind) {
@@ -946,6 +943,15 @@ impl Cfg {
             local.violation(
                 format!("{ml}:expected-{}:observed-{}", exp.label(), obs.kind.label()),
                 format!("decision table says {} but the engine did: {:?}", exp.label(), obs.kind),
+                case(exp.label()),
+            );
+            return Verdict { nontrivial };
+        }
+        // frame condition holds in every case
+        if !obs.frame.is_empty() {
+            local.violation(
+                format!("frame:{ml}"),
+                format!("something other than B's vaults of the deposited resources changed: {}", obs.frame.join("; ")),
                 case(exp.label()),
             );
             return Verdict { nontrivial };
